@@ -19,6 +19,7 @@ class NameSet(set):
 def assigned_names(stmts):
     out = set()
     mut = set()
+    passed = {}
     for s in stmts:
         for n in ast.walk(s):
             tg = []
@@ -32,13 +33,22 @@ def assigned_names(stmts):
                 tg = [i.optional_vars for i in n.items if i.optional_vars is not None]
             elif isinstance(n, ast.ExceptHandler) and n.name:
                 out.add(n.name)
-            elif isinstance(n, ast.Call) and isinstance(n.func, ast.Attribute):
-                # in-place mutation of a local container
-                r = n.func.value
-                while isinstance(r, (ast.Attribute, ast.Subscript)):
-                    r = r.value
-                if isinstance(r, ast.Name):
-                    mut.add(r.id)
+            elif isinstance(n, ast.Call):
+                if isinstance(n.func, ast.Attribute):
+                    # in-place mutation of a local container
+                    r = n.func.value
+                    while isinstance(r, (ast.Attribute, ast.Subscript)):
+                        r = r.value
+                    if isinstance(r, ast.Name):
+                        mut.add(r.id)
+                # a local handed to a callee may be changed in place by it (an in-out parameter of a contract, or an
+                # unknown callee): loop-carried like a method receiver -- the container VALUE it holds is arbitrary at
+                # the loop head; an object reference stays (its fields are havocked with the heap)
+                if not (isinstance(n.func, ast.Name) and n.func.id in PURE_BUILTINS):
+                    for a in list(n.args) + [k.value for k in n.keywords]:
+                        a = a.value if isinstance(a, ast.Starred) else a
+                        if isinstance(a, ast.Name):
+                            passed.setdefault(a.id, []).append(n)
             elif isinstance(n, (ast.Import, ast.ImportFrom)):
                 for a in n.names:
                     out.add((a.asname or a.name).split('.')[0])
@@ -62,7 +72,52 @@ def assigned_names(stmts):
                             mut.add(r.id)
     res = NameSet(out | mut)
     res.mutated_only = frozenset(mut - out)
+    res.passed = {k: v for k, v in passed.items() if k not in res}      # only handed to callees: see add_passed_names
     return res
+
+
+def add_passed_names(fv, names):
+    """locals that the loop body only hands to callees: such a local is loop-carried (arbitrary container value at the loop
+    head) unless EVERY callee it is handed to has a contract that does not list the corresponding parameter under
+    `modifies` (an external like random.choice, a query under contract)"""
+    extra = set()
+    for name, calls in getattr(names, 'passed', {}).items():
+        for node in calls:
+            c = None
+            f = node.func
+            try:
+                txt = ast.unparse(f)
+            except Exception:
+                txt = ''
+            cands = []
+            parts = txt.split('.')
+            if fv.module is not None and parts and parts[0] in fv.module.imports:
+                cands.append('.'.join([fv.module.imports[parts[0]]] + parts[1:]))
+            if fv.module is not None and len(parts) == 1:
+                cands.append(fv.module.name + '.' + parts[0])
+                if fv.qual:
+                    cands.append(fv.qual + '.' + parts[0])
+            for q in cands:
+                c = fv.E.find_contract(q)
+                if c is not None:
+                    break
+            if c is None:
+                extra.add(name)
+                break
+            pnames = [pn for pn, _ in c.params]
+            idx = [i for i, a in enumerate(node.args) if isinstance(a, ast.Name) and a.id == name]
+            kws = [k.arg for k in node.keywords if isinstance(k.value, ast.Name) and k.value.id == name]
+            bound_to = [pnames[i] for i in idx if i < len(pnames)] + [k for k in kws if k]
+            if len(bound_to) != len(idx) + len(kws) or any(pn in c.modifies for pn in bound_to) \
+                    or any(m in ('*',) for m in c.modifies):
+                extra.add(name)
+                break
+    if extra:
+        new = NameSet(set(names) | extra)
+        new.mutated_only = frozenset(set(names.mutated_only) | (extra - set(names)))
+        new.passed = {}
+        return new
+    return names
 
 
 PURE_BUILTINS = {'isinstance', 'len', 'enumerate', 'range', 'zip', 'getattr', 'hasattr', 'str', 'int', 'bool', 'type', 'id',
@@ -317,7 +372,7 @@ def slice_if(fv, s, st):
 def slice_loop(fv, s, st):
     """one arbitrary iteration from an arbitrary state; arbitrary state afterwards"""
     from .symexec import LoopCtl
-    names = assigned_names(s.body)
+    names = add_passed_names(fv, assigned_names(s.body))
     src = None
     if isinstance(s, ast.For):
         tnames = assigned_names([ast.Assign(targets=[s.target], value=ast.Constant(value=None))])
